@@ -250,3 +250,41 @@ func H_clean() {
 		}
 	}
 }
+
+// H_C07_symlink: the snapshot directory is reached through a symbolic link (as a temporary
+// directory is on macOS); what this run addressed is neither listed nor touched by Clean, in
+// report mode and in clean mode, and a stale file next to it is still found.
+func H_C07_symlink() {
+	vxrt.CI(false)
+	vxrt.EnvFixed("NO_COLOR", "1")
+	clean := vxrt.Bool("clean-mode")
+	if clean {
+		vxrt.EnvFixed("UPDATE_SNAPS", "clean")
+	} else {
+		vxrt.EnvFixed("UPDATE_SNAPS", "")
+	}
+	vxrt.Flag("test.run", "")
+	vxrt.Flag("test.count", "1")
+	base := vxrt.Dir()
+	realDir, link := base+"/real", base+"/link"
+	os_MkdirAll(realDir + "/__snapshots__")
+	vxrt.Symlink(realDir, link)
+	dir := link + "/__snapshots__"
+	writeFile(dir+"/f.snap", frame("TestA - 1", "a")+frame("TestA - 2", "stale entry"))
+	writeFile(dir+"/old.snap", frame("TestOld - 1", "stale file"))
+	c := WithConfig(Dir(dir), Filename("f"))
+	cs := WithConfig(Dir(dir))
+	t := newT("TestA")
+	c.MatchSnapshot(t, "a")
+	cs.MatchStandaloneSnapshot(t, "s")
+	t.end()
+	vxrt.Assert(len(t.errors) == 0, "setup:passes")
+	Clean(nil)
+	out := vxrt.Stdout()
+	vxrt.Assert(!strings.Contains(out, "/f.snap\n") && !strings.Contains(out, "TestA_1.snap"), "C07:addressed-file-not-listed")
+	vxrt.Assert(!strings.Contains(out, bulletSymbol+"TestA - 1\n"), "C07:addressed-entry-not-listed")
+	got, _, err := getPrevSnapshot("[TestA - 1]", realDir+"/__snapshots__/f.snap")
+	vxrt.Assert(err == nil && got == "a" && readFile(realDir+"/__snapshots__/TestA_1.snap") == "s", "C07:addressed-entry-value-unchanged")
+	vxrt.Assert(strings.Contains(out, bulletSymbol+"TestA - 2\n") && strings.Contains(out, "old.snap\n"), "C09:stale-entry-reported")
+	vxrt.Assert((readFile(realDir+"/__snapshots__/old.snap") == "<missing>") == clean, "C09:stale-file-removed-iff-clean-mode")
+}
